@@ -9,6 +9,12 @@ Definition anylook : N -> N -> N -> N -> Prop := fun _ _ _ _ => True.
 
 Definition to_stack (stk : list entry) : stack := map (fun e => (e_state e, e_tree e)) stk.
 
+(* the ghost trace of the LR model without the layout component *)
+Definition strip (tr : list (N * N * N * (N * N))) : list (N * N * N) := map fst tr.
+
+Definition sim (s : lrstate) (c : config) : Prop :=
+  c_stack c = to_stack (l_stack s) /\ c_trace c = strip (l_trace s).
+
 Section LRSim.
   Variable g : grammar.
   Variable tb : table.
@@ -23,8 +29,8 @@ Section LRSim.
   (* what a Continue/Done outcome means for a related N(T) configuration *)
   Definition sim_outcome (c : config) (o : outcome) : Prop :=
     match o with
-    | Continue s' => exists c', nstep g tb anylook c c' /\ c_stack c' = to_stack (l_stack s')
-    | Done (LROk t _ _ _) => naccepts tb anylook c t
+    | Continue s' => exists c', nstep g tb anylook c c' /\ sim s' c'
+    | Done (LROk t _ _ tr) => naccepts tb anylook c t /\ c_trace c = strip tr
     | Done _ => True
     end.
 
@@ -49,12 +55,12 @@ Section LRSim.
   Proof. unfold to_stack. rewrite map_map. reflexivity. Qed.
 
   Lemma do_reduce_sim c tr stk pos1 lay1 ah p pr y :
-    c_stack c = to_stack stk ->
+    c_stack c = to_stack stk -> c_trace c = strip tr ->
     In (Reduce p) (cell tb (top_state (to_stack stk)) y) ->
     get_prod g p = Some pr ->
     sim_outcome c (do_reduce tb tr stk pos1 lay1 ah p pr).
   Proof.
-    intros Hc Hin Hp. unfold do_reduce.
+    intros Hc Htr Hin Hp. unfold do_reduce.
     destruct (Nat.eqb (length (firstn (length (rhs pr)) stk)) (length (rhs pr))) eqn:Hlen;
       cbn [negb]; [|exact I].
     apply Nat.eqb_eq in Hlen.
@@ -63,7 +69,7 @@ Section LRSim.
     destruct (match rev (firstn (length (rhs pr)) stk) with
               | [] => _ | deepest :: _ => _ end) as [startp lay].
     cbn [sim_outcome l_stack].
-    destruct c as [cst cpos ctr]. cbn [c_stack] in Hc. subst cst.
+    destruct c as [cst cpos ctr]. cbn [c_stack c_trace] in Hc, Htr. subst cst.
     eexists. split.
     - eapply (ns_reduce g tb anylook (to_stack stk) cpos ctr y 0 0 p pr
                 (to_stack (firstn (length (rhs pr)) stk)) (to_stack (r0 :: rest')) s').
@@ -73,42 +79,42 @@ Section LRSim.
       + rewrite <- Hrest. apply to_stack_split.
       + unfold to_stack. rewrite map_length. exact Hlen.
       + cbn. exact Hg.
-    - cbn [c_stack]. rewrite map_snd_to_stack. reflexivity.
+    - split; [cbn [c_stack]; rewrite map_snd_to_stack; reflexivity|exact Htr].
   Qed.
 
   Lemma do_action_sim c tr stk lay1 scan fb acts y :
-    c_stack c = to_stack stk ->
+    c_stack c = to_stack stk -> c_trace c = strip tr ->
     (forall a, In a acts -> In a (cell tb (top_state (to_stack stk)) y)) ->
     (fb = false -> match scan with TTok y' _ => y' = y | _ => True end) ->
     sim_outcome c (do_action g tb tr stk lay1 scan fb acts).
   Proof.
-    intros Hc Hsub Hy. unfold do_action.
+    intros Hc Htr Hsub Hy. unfold do_action.
     destruct stk as [|top below]; [exact I|].
     destruct acts as [|act more]; [exact I|].
     destruct act as [s'|p0|].
     - destruct scan as [|y' len|]; try exact I. destruct fb; [exact I|].
       specialize (Hy eq_refl). subst y'.
       cbn [sim_outcome l_stack].
-      destruct c as [cst cpos ctr]. cbn [c_stack] in Hc. subst cst.
+      destruct c as [cst cpos ctr]. cbn [c_stack c_trace] in Hc, Htr. subst cst.
       eexists. split.
       + eapply (ns_shift g tb anylook _ cpos ctr y (e_pos top) (e_pos top + len) s').
         * exact I.
         * apply Hsub. left. reflexivity.
-      + reflexivity.
+      + split; [reflexivity|]. cbn [c_trace l_trace]. unfold strip. rewrite map_app, Htr. reflexivity.
     - destruct (select_prod g p0 more) as [[p pr]|] eqn:Hsel; [|exact I].
       destruct (select_prod_spec _ _ _ _ Hsel) as [Hp Hin].
-      eapply do_reduce_sim; [exact Hc| |exact Hp]. apply Hsub. exact Hin.
+      eapply do_reduce_sim; [exact Hc|exact Htr| |exact Hp]. apply Hsub. exact Hin.
     - destruct (nth_error (rev (top :: below)) 1) as [r|] eqn:Hn; [|exact I].
-      cbn [sim_outcome]. exists y, 0, 0. split; [exact I|].
+      cbn [sim_outcome]. split; [|exact Htr]. exists y, 0, 0. split; [exact I|].
       split; [rewrite Hc; apply Hsub; left; reflexivity|].
       exists (e_state r). rewrite Hc. unfold to_stack. rewrite <- map_rev.
       rewrite nth_error_map, Hn. reflexivity.
   Qed.
 
   Lemma step_sim s c :
-    c_stack c = to_stack (l_stack s) -> sim_outcome c (step s).
+    sim s c -> sim_outcome c (step s).
   Proof.
-    intros Hc. unfold lr_step.
+    intros [Hc Htr]. unfold lr_step.
     destruct (l_stack s) as [|top0 below] eqn:Hstk; [exact I|].
     destruct (lookahead skipws next_token in_layout s top0) as [[[top lay1] scan]|] eqn:Hla; [|exact I].
     assert (Htop : e_state top = e_state top0 /\ e_tree top = e_tree top0).
@@ -122,20 +128,20 @@ Section LRSim.
     { rewrite Hc. cbn. rewrite Hts, Htt. reflexivity. }
     destruct scan as [|y len|]; [| |exact I].
     - destruct consume_input.
-      + apply (do_action_sim c _ _ lay1 TNone true [] stop_id Hc'); [intros a []|discriminate].
-      + apply (do_action_sim c _ _ lay1 TNone true _ stop_id Hc'); [intros a Ha; exact Ha|discriminate].
+      + apply (do_action_sim c _ _ lay1 TNone true [] stop_id Hc' Htr); [intros a []|discriminate].
+      + apply (do_action_sim c _ _ lay1 TNone true _ stop_id Hc' Htr); [intros a Ha; exact Ha|discriminate].
     - destruct (cell tb (e_state top) y) as [|a0 acts0] eqn:Hcell.
       + destruct consume_input.
-        * apply (do_action_sim c _ _ lay1 _ true [] stop_id Hc'); [intros a []|discriminate].
-        * apply (do_action_sim c _ _ lay1 _ true _ stop_id Hc'); [intros a Ha; exact Ha|discriminate].
-      + apply (do_action_sim c _ _ lay1 _ false _ y Hc').
+        * apply (do_action_sim c _ _ lay1 _ true [] stop_id Hc' Htr); [intros a []|discriminate].
+        * apply (do_action_sim c _ _ lay1 _ true _ stop_id Hc' Htr); [intros a Ha; exact Ha|discriminate].
+      + apply (do_action_sim c _ _ lay1 _ false _ y Hc' Htr).
         * intros a Ha. cbn [to_stack map top_state]. rewrite Hcell. exact Ha.
         * intros _. reflexivity.
   Qed.
 
   Lemma run_sim fuel : forall s c t rp lay tr,
-    c_stack c = to_stack (l_stack s) -> run fuel s = LROk t rp lay tr ->
-    exists c', nsteps g tb anylook c c' /\ naccepts tb anylook c' t.
+    sim s c -> run fuel s = LROk t rp lay tr ->
+    exists c', nsteps g tb anylook c c' /\ naccepts tb anylook c' t /\ c_trace c' = strip tr.
   Proof.
     induction fuel as [|f IH]; intros s c t rp lay tr Hc Hrun; cbn [lr_run] in Hrun; [discriminate|].
     pose proof (step_sim s c Hc) as Hsim.
@@ -149,16 +155,19 @@ Section LRSim.
     - subst r. cbn in Hsim. exists c. split; [apply nss_refl|exact Hsim].
   Qed.
 
-  (* soundness of the LR driver for every structurally valid table *)
+  (* soundness of the LR driver for every structurally valid table: the result is a
+     derivation tree rooted in the start symbol whose leaves are exactly the tokens the
+     driver shifted, in order *)
   Theorem lr_sound start fuel pos t rp lay tr :
     table_struct g tb start = true ->
     lr_parse g tb skipws next_token stop_id consume_input in_layout fuel pos = LROk t rp lay tr ->
-    wf_tree g t /\ root_sym g t = Some (NT start).
+    wf_tree g t /\ root_sym g t = Some (NT start) /\ leaves t = strip tr.
   Proof.
     intros Hts Hrun. unfold lr_parse in Hrun.
-    destruct (run_sim fuel (lr_init pos) (init_cfg pos (bottom_tree pos)) t rp lay tr eq_refl Hrun)
-      as (c' & Hsteps & Hacc).
-    destruct (nlr_sound g tb start anylook Hts pos _ c' t Hsteps Hacc) as (H1 & H2 & _).
-    split; assumption.
+    assert (Hsim : sim (lr_init pos) (init_cfg pos (bottom_tree pos))) by (split; reflexivity).
+    destruct (run_sim fuel (lr_init pos) (init_cfg pos (bottom_tree pos)) t rp lay tr Hsim Hrun)
+      as (c' & Hsteps & Hacc & Htr).
+    destruct (nlr_sound g tb start anylook Hts pos _ c' t Hsteps Hacc) as (H1 & H2 & H3).
+    split; [exact H1|]. split; [exact H2|]. rewrite H3. exact Htr.
   Qed.
 End LRSim.
